@@ -102,6 +102,29 @@ def spec_field(schema, cls: dict, f: dict, flexible_override=None, is_request_he
 
 
 # ------------------------------------------------------------------ neutralisation
+PENDING_LIMITS: list = []   # conversions the comparison could not name; drained into the report as analysis limits
+
+
+def _unnamed(conv):
+    """Name of a conversion the tables do not know.  Integer arithmetic is compared by its normal form ("conv:(X - 1)"); a conversion
+    through datetime/timedelta operations that timeflow cannot classify is *unknown*: comparing it with anything is not a verdict."""
+    rc = repr(conv)
+    timey = any(w in rc for w in ("timedelta", "datetime", "'timestamp'", "'total_seconds'", "'microsecond'", "'fromtimestamp'", "'replace'"))
+    return ("unknown:" if timey else "conv:") + timeflow.show(conv)
+
+
+def _conv_differs(a, b, where):
+    """True when two conversion names differ in a way that is a verdict.  An unknown (time) conversion is recorded as a limit instead."""
+    if a == b:
+        return False
+    for x in (a, b):
+        if isinstance(x, str) and x.startswith("unknown:"):
+            msg = f"{where}: time conversion not understood: {x[8:][:160]}"
+            if msg not in PENDING_LIMITS:
+                PENDING_LIMITS.append(msg)
+            return False
+    return True
+
 
 def conv_name_reader(conv, prefix):
     if conv == ["X"]:
@@ -119,7 +142,7 @@ def conv_name_reader(conv, prefix):
                 or any(o == "epoch + timedelta" for o in q.ops) and any(o == "timedelta(milliseconds=int)" for o in q.ops)
             if ok:
                 return "datetime_ms"
-    return "conv:" + timeflow.show(conv)
+    return _unnamed(conv)
 
 
 def conv_name_writer(conv, prefix):
@@ -147,7 +170,7 @@ def conv_name_writer(conv, prefix):
         names = {conv_name_writer(c[1], prefix) for c in conv[1]}
         if len(names) == 1:
             return names.pop()
-    return "conv:" + timeflow.show(conv)
+    return _unnamed(conv)
 
 
 def neutral_prefix(p):
@@ -276,7 +299,7 @@ def cmp_writer(w, s, where="field") -> list[str]:
     k = s["k"]
     if k in ("scalar", "lenpref", "array", "marked"):
         _cmp_prefix(w["prefix"], s["prefix"], where, out)
-    if k == "scalar" and w["conv"] != s["conv"] and not (s["conv"].startswith("enum:") and w["conv"] == "enum"):
+    if k == "scalar" and _conv_differs(w["conv"], s["conv"], where) and not (s["conv"].startswith("enum:") and w["conv"] == "enum"):
         out.append(f"{where}: value conversion {w['conv']} but {s['conv']} is prescribed")
     if k in ("lenpref", "array") and w["bias"] != s["bias"]:
         out.append(f"{where}: length is written with bias {w['bias']} but {s['bias']} is prescribed")
@@ -309,7 +332,7 @@ def cmp_reader(r, s, where="field") -> list[str]:
     k = s["k"]
     if k in ("scalar", "lenpref", "array", "marked"):
         _cmp_prefix(r["prefix"], s["prefix"], where, out)
-    if k == "scalar" and r["conv"] != s["conv"]:
+    if k == "scalar" and _conv_differs(r["conv"], s["conv"], where):
         out.append(f"{where}: value conversion {r['conv']} but {s['conv']} is prescribed")
     if k in ("lenpref", "array") and r["bias"] != s["bias"]:
         out.append(f"{where}: length is read with bias {r['bias']} but {s['bias']} is prescribed")
@@ -352,7 +375,7 @@ def cmp_rw(r, w, where="field", nullable=True) -> list[str]:
             out.append(f"{where}: writer prefix {b} vs reader prefix {a}")
     if k == "scalar":
         rc, wc = r["conv"], w["conv"]
-        if not (rc == wc or (rc.startswith("enum:") and wc == "enum")):
+        if _conv_differs(rc, wc, where) and not (rc.startswith("enum:") and wc == "enum"):
             out.append(f"{where}: writer conversion {wc} vs reader conversion {rc}")
     if k in ("lenpref", "array") and r["bias"] != w["bias"]:
         out.append(f"{where}: writer bias {w['bias']} vs reader bias {r['bias']}")
